@@ -121,7 +121,87 @@ func jsonMs(ms int64) string {
 	if ms%1000 == 0 {
 		return fmt.Sprint(ms / 1000)
 	}
-	return fmt.Sprintf("%d.%03d", ms/1000, ms%1000)
+	sign, a := "", ms
+	if a < 0 {
+		sign, a = "-", -a
+	}
+	return fmt.Sprintf("%s%d.%03d", sign, a/1000, a%1000)
+}
+
+// floorSecMs: ms rounded DOWN to a whole second (what golang-jwt's NumericDate keeps), also for negative values
+func floorSecMs(ms int64) int64 {
+	q := ms / 1000
+	if ms%1000 < 0 {
+		q--
+	}
+	return q * 1000
+}
+
+// extremeMs: boundary-aware absolute times (ms), all exactly representable as JSON numbers in float64 (|seconds| <= 2^53):
+// the epoch, before the epoch, year 1900 / 9999, now -/+ 2^63 ns and 2^64 ns (int64 nanosecond Durations wrap there),
+// the band in between, -/+ 2^63 ns as absolute times, -/+ 2^53 s.
+func extremeMs(r *verifx.Rng, now int64) int64 {
+	nowSec := now / 1000
+	small := int64(r.Intn(7)) - 3
+	var sec int64
+	switch r.Intn(15) {
+	case 0:
+		sec = small
+	case 1:
+		sec = -1 - int64(r.Intn(100000))
+	case 2:
+		sec = -2208988800 + small // 1900-01-01
+	case 3:
+		sec = 253402300799 + small // 9999-12-31
+	case 4:
+		sec = nowSec - 9223372036 + small // now - 2^63 ns
+	case 5:
+		sec = nowSec - 18446744073 + small // now - 2^64 ns
+	case 6:
+		sec = nowSec + 9223372036 + small
+	case 7:
+		sec = nowSec + 18446744073 + small
+	case 8:
+		sec = -9223372036 + small
+	case 9:
+		sec = 9223372036 + small
+	case 10:
+		sec = nowSec - 9223372037 - int64(r.Intn(9223372035)) // expired between 2^63 and 2^64 ns ago
+	case 11:
+		sec = -(1 << 53) + int64(r.Intn(1000))
+	case 12:
+		sec = (1 << 53) - int64(r.Intn(1000))
+	case 13:
+		sec = nowSec - 5 + small // the tolerance edge
+	case 14:
+		sec = nowSec - 27670116110 - int64(r.Intn(1000000)) // more than 1.5 * 2^64 ns ago
+	}
+	ms := sec * 1000
+	if r.Chance(1, 5) && sec > -(1<<53) && sec < (1<<53)-1 {
+		ms += int64(r.Intn(4)) * 250
+	}
+	return ms
+}
+
+// hugeExp: JSON numbers beyond 2^53 s. float64 rounding and Go's float->int64 conversion are not modelled: the
+// value the model is given is the one golang-jwt's own NumericDate decoding yields (seconds, printed as ms).
+var hugeExp = []struct {
+	lit     string
+	farPast bool // the number as written is before now - 5 s
+}{
+	{"4000000000000000000", false}, {"-4000000000000000000", true}, {"9223372036854775807", false}, {"9223372036854775808", false},
+	{"-9223372036854775808", true}, {"1e19", false}, {"-1e19", true}, {"1e300", false}, {"-1e300", true}, {"-9.3e18", true},
+}
+
+func parsedSecAsMs(lit string) string {
+	var d jwt.NumericDate
+	if err := json.Unmarshal([]byte(lit), &d); err != nil {
+		panic(err)
+	}
+	if d.Unix() == 0 {
+		return "0"
+	}
+	return fmt.Sprintf("%d000", d.Unix())
 }
 
 // ------------------------------------------------------------------------------------------------ token spec
@@ -141,6 +221,8 @@ type spec struct {
 	exp, iat, nbf  *int64 // ms since epoch
 	service        bool
 	bits           []string
+	expRaw         string // if set: the JSON literal written for exp (a number beyond 2^53 s) instead of *exp
+	expRawFarPast  bool
 	malformed      int // 0 = well formed
 	aspects        []string
 	// JSON shape of the claims (all of these decode to the same model token: absent = null = zero value)
@@ -180,7 +262,11 @@ func (s *spec) claimsJSON(user *string) string {
 		null(&f, "iss")
 	}
 	if s.exp != nil {
-		f = append(f, `"exp":`+jsonMs(*s.exp))
+		if s.expRaw != "" {
+			f = append(f, `"exp":`+s.expRaw)
+		} else {
+			f = append(f, `"exp":`+jsonMs(*s.exp))
+		}
 	} else {
 		null(&f, "exp")
 	}
@@ -417,12 +503,7 @@ func genBits(r *verifx.Rng, app string) []string {
 
 var tamperKinds = []string{"alg", "kind", "kid", "sig", "iss", "user", "exp", "iat", "nbf", "malformed"}
 
-func p64(v int64) *int64 {
-	if v < 0 {
-		v = 0
-	}
-	return &v
-}
+func p64(v int64) *int64    { return &v }
 func pstr(s string) *string { return &s }
 
 // otherKey: index of a key different from `cur`: a configured one if there are two or more, else the unconfigured last one
@@ -537,6 +618,13 @@ func tamper(r *verifx.Rng, s *spec, now int64, keys []keyPair, which int) string
 			if r.Chance(1, 6) {
 				s.exp = p64(now - 3600_000*int64(1+r.Intn(100)))
 			}
+			switch r.Pick(60, 32, 8) {
+			case 1:
+				s.exp = p64(extremeMs(r, now))
+			case 2:
+				hx := hugeExp[r.Intn(len(hugeExp))]
+				s.expRaw, s.expRawFarPast = hx.lit, hx.farPast
+			}
 		}
 	case "iat":
 		if r.Chance(1, 8) {
@@ -546,11 +634,17 @@ func tamper(r *verifx.Rng, s *spec, now int64, keys []keyPair, which int) string
 			if r.Chance(1, 6) {
 				s.iat = p64(now + 3600_000*int64(1+r.Intn(100)))
 			}
+			if r.Chance(1, 4) {
+				s.iat = p64(extremeMs(r, now))
+			}
 		}
 	case "nbf":
 		s.nbf = p64(now + bnd[r.Intn(len(bnd))])
 		if r.Chance(1, 6) {
 			s.nbf = p64(now + w + bnd[r.Intn(len(bnd))])
+		}
+		if r.Chance(1, 4) {
+			s.nbf = p64(extremeMs(r, now))
 		}
 	case "malformed":
 		s.malformed = 1 + r.Intn(11)
@@ -951,6 +1045,16 @@ func runCase(i int, r *verifx.Rng) {
 				*s.exp += int64(r.Intn(4)) * 250
 				*s.iat += int64(r.Intn(4)) * 250
 			}
+			// still valid: expiry far in the future, issue / not-before far in the past (incl. before 1970)
+			if r.Chance(1, 20) {
+				s.exp = p64([]int64{253402300799, 1<<53 - 1 - int64(r.Intn(1000)), now/1000 + 9223372036 + int64(r.Intn(7)) - 3, now/1000 + 18446744073 + int64(r.Intn(7)) - 3}[r.Intn(4)] * 1000)
+			}
+			if r.Chance(1, 20) {
+				s.iat = p64([]int64{0, -1, -2208988800, now/1000 - 9223372036 - int64(r.Intn(7)), now/1000 - 18446744074, -(1 << 53) + int64(r.Intn(1000))}[r.Intn(6)] * 1000)
+				if r.Bool() {
+					s.nbf = p64(*s.iat)
+				}
+			}
 			s.nullAbsent = r.Chance(1, 4)
 			s.svcShape = r.Intn(3)
 			// bit sets: the first token of a sequence is usually privileged; later ones often carry no bits key / null / [] /
@@ -1010,6 +1114,29 @@ func runCase(i int, r *verifx.Rng) {
 					break
 				}
 			}
+			expTok := optMs(s.exp)
+			if s.exp != nil && s.expRaw != "" {
+				expTok = parsedSecAsMs(s.expRaw)
+				h.Stat("exp.huge", 1)
+			} else if s.exp != nil {
+				switch d := (now - *s.exp) / 1000; {
+				case d > 18446744073:
+					h.Stat("exp.expired-more-than-2^64ns-ago", 1)
+				case d > 9223372036:
+					h.Stat("exp.expired-2^63..2^64ns-ago", 1)
+				case d > 3600*24*366:
+					h.Stat("exp.expired-years-ago", 1)
+				case d >= 5:
+					h.Stat("exp.expired", 1)
+				case d > -3600*24*366:
+					h.Stat("exp.near-future", 1)
+				default:
+					h.Stat("exp.far-future", 1)
+				}
+				if *s.exp < 0 {
+					h.Stat("exp.negative", 1)
+				}
+			}
 			token := s.mint(keys)
 			empty := r.Chance(1, 60)
 			if empty {
@@ -1042,7 +1169,7 @@ func runCase(i int, r *verifx.Rng) {
 					user = *s.user
 				}
 				h.Op("tok %d t %s %s %s %s %s %s %s %s %s %d %s", now, s.alg.tok(), s.kind.tok(), s.kid.tok(), xl(sigValid), xs(iss), xs(user),
-					optMs(s.exp), optMs(s.iat), optMs(s.nbf), b2i(s.service), xl(s.bits))
+					expTok, optMs(s.iat), optMs(s.nbf), b2i(s.service), xl(s.bits))
 			}
 			o := parse(helper, token, prot, local, insecure)
 			for _, a := range s.aspects {
@@ -1132,12 +1259,12 @@ func runCase(i int, r *verifx.Rng) {
 					bad("user", "it names no user")
 				case s.exp == nil:
 					bad("noexp", "it has no expiry")
-				case now >= *s.exp+w:
+				case s.expRaw != "" && s.expRawFarPast, s.expRaw == "" && now >= *s.exp+w:
 					bad("expired", "it expired more than 5 s ago")
 				// iat/nbf are NumericDates: golang-jwt keeps whole seconds (jwt.TimePrecision), so they are compared floored
-				case s.iat != nil && *s.iat/1000*1000 > now+w:
+				case s.iat != nil && floorSecMs(*s.iat) > now+w:
 					bad("future-iat", "it was issued more than 5 s in the future")
-				case s.nbf != nil && *s.nbf/1000*1000 > now+w:
+				case s.nbf != nil && floorSecMs(*s.nbf) > now+w:
 					bad("premature", "its not-before is more than 5 s in the future")
 				}
 				// only bits prefixed with the application name are granted
